@@ -217,6 +217,14 @@ def run(facts, rep, tier, ctx):
                 k += 1
                 rep.ob("R08.5", o["fn"], d, o["ok"], o["detail"], o["loc"])
         rep.floor("copy_file obligations on the physical backend (%s)" % w.tag, k, 2)
+    # R08.7 the path layer's native fast paths run only when source and destination are the same filesystem instance:
+    # otherwise a copy-up (resolved lower path -> upper path) would call the *lower layer's* own copy_file/move_file
+    # with the destination string, i.e. write into the lower layer
+    from ..pathrules import PathRules
+    for w in (ws, wa):
+        if w.present():
+            k = PathRules(facts, w).fast_paths(rep if not w.asyncw else __import__("analysis.props.c10", fromlist=["_Prefixed"])._Prefixed(rep, "A"), "R08.7")
+            rep.floor("fast-path obligations (%s)" % w.tag, k, 6)
     rep.assume("a layer's own observing methods (read_dir/open_file/metadata/exists) do not mutate that layer's tree "
                "(in-crate backends: checked as a note; foreign FileSystem impls: assumed)")
     rep.assume("children yielded by VfsPath::read_dir/walk_dir live on the receiver's filesystem (rule R05.1)")
